@@ -226,6 +226,17 @@ func (v *FnVC) applyContract(in *ssa.Call, callee *ssa.Function, spec *FuncSpec,
 	pre := st.clone()
 	envPre := v.calleeEnv(callee, spec, args, pre, sf)
 	envPre.freshBase = pre.alloc
+	// ghost variables of this function are visible to (extern) callee contracts
+	if len(v.ghostVars) > 0 {
+		v.bindGhost(envPre, pre)
+	}
+	_, vvals := callConstOperands(in.Call)
+	for k, x := range vvals {
+		xv := v.value(x, st)
+		if xv.T != nil {
+			envPre.vars[fmt.Sprintf("vararg%d", k)] = xv
+		}
+	}
 	for i, c := range spec.Requires {
 		nm := fmt.Sprintf("%s.requires#%d", cn, i+1)
 		if c.Name != "" {
@@ -365,9 +376,29 @@ func (v *FnVC) applyContract(in *ssa.Call, callee *ssa.Function, spec *FuncSpec,
 		v.assume(v.curGuard, v.typeInv(r, rt, st), "type")
 		results = append(results, Val{T: r, Typ: rt})
 	}
+	for _, gname := range spec.ModGhost {
+		typ, ok := v.ghostVars[gname]
+		if !ok {
+			specErr("callee %s modifies ghost %s which this function does not declare", spec.Key, gname)
+		}
+		if v.ghostSeq[gname] {
+			st.vars["ghost."+gname] = v.fresh("ghost_"+gname, ArrSort(SInt))
+		} else {
+			st.vars["ghost."+gname] = v.fresh("ghost_"+gname, sortOf(typ))
+		}
+	}
 	envPost := v.calleeEnv(callee, spec, args, st, sf)
 	envPost.old = envPre
 	envPost.freshBase = pre.alloc
+	if len(v.ghostVars) > 0 {
+		v.bindGhost(envPost, st)
+	}
+	for k, x := range vvals {
+		xv := v.value(x, st)
+		if xv.T != nil {
+			envPost.vars[fmt.Sprintf("vararg%d", k)] = xv
+		}
+	}
 	names := calleeResultNames(callee, spec)
 	for i, r := range results {
 		if i < len(names) {
@@ -431,6 +462,15 @@ func hasRefs(t types.Type) bool {
 
 type heapDesc struct{ name, sort string }
 
+func safeSort(t types.Type) (s string) {
+	defer func() {
+		if recover() != nil {
+			s = "STRUCT"
+		}
+	}()
+	return sortOf(t)
+}
+
 func refHeaps(t types.Type) []heapDesc {
 	var out []heapDesc
 	seen := map[string]bool{}
@@ -449,8 +489,8 @@ func refHeaps(t types.Type) []heapDesc {
 		}
 		switch u := t.Underlying().(type) {
 		case *types.Slice:
-			es := sortOf(u.Elem())
-			if es == "STRUCT" {
+			es := safeSort(u.Elem())
+			if es == "STRUCT" || es == "TUPLE" {
 				return
 			}
 			n := sliceHeap(u.Elem())
@@ -463,8 +503,8 @@ func refHeaps(t types.Type) []heapDesc {
 			if s, ok := u.Elem().Underlying().(*types.Struct); ok {
 				for i := 0; i < s.NumFields(); i++ {
 					f := s.Field(i)
-					fs := sortOf(f.Type())
-					if fs == "STRUCT" {
+					fs := safeSort(f.Type())
+					if fs == "STRUCT" || fs == "TUPLE" {
 						continue
 					}
 					n := fieldHeap(u.Elem(), f.Name())
@@ -476,8 +516,8 @@ func refHeaps(t types.Type) []heapDesc {
 				}
 				return
 			}
-			es := sortOf(u.Elem())
-			if es == "STRUCT" {
+			es := safeSort(u.Elem())
+			if es == "STRUCT" || es == "TUPLE" {
 				return
 			}
 			n := cellHeap(u.Elem())
